@@ -332,6 +332,12 @@ class C08(Check):
                 on = [c for c in cbs if f.random() < 0.6] or [f.choice(cbs)]
                 knobs["raising_observer"] = {"on": on, "pos": f.randrange(2), "exc": f.choice(["ValueError", "KeyError", "RuntimeError", "AssertionError", "ZeroDivisionError", "ValueError", "SystemExit", "GeneratorExit", "CancelledError"])}
         ntx = k.choice([1, 2, 3, 4, 6, 8])
+        scale = k.random() < 0.01
+        if scale:
+            # scale runs: a watcher that has seen hundreds of terminals, and hundreds of transmissions in one process
+            terms = [77] + [1000 + 7 * i for i in range(k.choice([130, 300]))]
+            knobs["terminals"] = terms
+            ntx = k.choice([300, 500])
         long_voice = k.random() < 0.02
         # size-boundary runs: data transmissions as long as the air interface allows (8-bit preamble count, 7-bit blocks-to-follow)
         long_data = k.random() < 0.04
